@@ -236,6 +236,22 @@ Proof.
   repeat (apply orb_true_iff in Hv; destruct Hv as [Hv|Hv]); lia.
 Qed.
 
+Lemma decode0_mac_no_panic mr d : 6 <= N.of_nat (length d) -> M_decode0_mac mr d <> Panic.
+Proof.
+  intros H. unfold M_decode0_mac. replace (N.of_nat (length d) <? 6) with false by lia.
+  destruct (negb _); discriminate.
+Qed.
+
+Lemma get_sub2_no_panic mr k d :
+  10 <= N.of_nat (length d) -> valid_format (rd16 d) = true -> M_get_sub2 mr k d <> Panic.
+Proof.
+  intros Hl Hv. unfold M_get_sub2. destruct k as [[p e] l].
+  destruct ((p =? 1) && (e =? 0)); [|now apply get_sub_no_panic].
+  destruct (get16_ok d 0 ltac:(lia)) as [format Hf]. rewrite Hf. cbn [obind].
+  destruct (format =? 0); [|now apply get_sub_no_panic].
+  unfold omap. apply obind_not_panic; [apply decode0_mac_no_panic; lia|discriminate].
+Qed.
+
 Lemma tget_map {V W} (f : V -> W) k (t : list (key * V)) :
   tget k (map (fun kv => (fst kv, f (snd kv))) t) = option_map f (tget k t).
 Proof.
@@ -271,7 +287,7 @@ Proof.
   unfold M_get. rewrite (tget_map (sub_bytes data)).
   destruct (tget k t0) as [ol|] eqn:E; cbn [option_map]; [|discriminate].
   pose proof (tget_forall (sub_ok data) k t0 ol Hinv E) as (S1 & S2 & S3).
-  apply get_sub_no_panic.
+  apply get_sub2_no_panic.
   - rewrite sub_bytes_length by assumption. assumption.
   - unfold sub_bytes. rewrite rd16_firstn by lia. exact S3.
 Qed.
